@@ -98,7 +98,16 @@ class Step:
         if len(recs) != 1: raise Unsupported("expected exactly one step loop, found %d" % len(recs))
         s.rec = recs[0]; s.lists = s.rec['lists']; s.locals = s.rec['locals']
 
+    FIELD = {'feed_composition': 'feed_compositions'}
+
+    def series(s, name):
+        """a series that is not built by the loop (e.g. precomputed before it): the model field"""
+        v = s.field(s.FIELD.get(name, name))
+        if not isinstance(v, Seq): raise Unsupported("series %s is neither built by the step loop nor a precomputed list" % name)
+        return v
+
     def read(s, name, c=0):
+        if name not in s.lists: return s.ex.seq_get(s.series(name), var('k', 'I') + c)
         g = s.lists[name]
         j = c - len(g.init)
         if j >= 0:
@@ -108,11 +117,14 @@ class Step:
         return g.reads[c]
 
     def appended(s, name, i=0):
+        if name not in s.lists: return s.ex.seq_get(s.series(name), var('k', 'I') + 1)
         g = s.lists[name]
         if i >= len(g.app): raise Unsupported("list %s is not appended in the step loop" % name)
         return g.app[i]
 
-    def init(s, name): return s.lists[name].init
+    def init(s, name):
+        if name not in s.lists: return [s.ex.seq_get(s.series(name), lift(0))]
+        return s.lists[name].init
 
     def field(s, name):
         m = s.model
